@@ -614,11 +614,20 @@ func (enc *Encoder) encodeStream() ([]byte, error) {
 			enc.histoImageBuf = make([]uint32, histoImageSize)
 		}
 		histoImage := enc.histoImageBuf
+		// The decoder derives the number of Huffman groups from the largest
+		// index in the histogram image, so clusters left without tiles by the
+		// remap pass at the end of the set must not be written (as in the C
+		// reference, histogram_image_size = max_index).
+		maxIndex := 0
 		for i, s := range symbols {
 			if i < histoImageSize {
 				histoImage[i] = uint32(s) << 8
+				if int(s) >= maxIndex {
+					maxIndex = int(s) + 1
+				}
 			}
 		}
+		numHistos = maxIndex
 
 		// Optimize sampling: try coarser tiling if histogram image is uniform.
 		optimizedBits := optimizeSampling(histoImage, currentWidth, height,
